@@ -276,7 +276,7 @@ def gen(rng, cfg, tier='quick', kf=False):
         if not fx:
             return rng.randint(-lim, lim)
         if whole:
-            return [rng.randint(-min(lim, 8), min(lim, 8)), 1]
+            return [rng.randint(-lim, lim), 1]       # sample ranges up to 100: mode()'s frequency table grows with the range
         num = rng.randint(-lim * 16, lim * 16) | 1
         return [num, 16]
 
